@@ -48,6 +48,13 @@ NoDup(seq) == Len(seq) = Cardinality(S(seq))
 ev == Rec(l)
 IsStep == ph = "pre" /\ ph' = "post"
 
+\* tampered copies a replica holds (ground truth recorded by the driver from the script)
+BadIdsOf(o)  == {b.id : b \in S(o.bad)}
+InvalidOf(o) == {b.id : b \in {c \in S(o.bad) : c.kind # "foreign"}}
+ForeignOf(o) == {b.id : b \in {c \in S(o.bad) : c.kind = "foreign"}}
+UFor(o) == [x \in DOMAIN UU |-> IF x \in ForeignOf(o) THEN [UU[x] EXCEPT !.lid = "~"] ELSE UU[x]]
+DeniedBy(r) == S(Hdr.cfg.Denied[r])
+
 -----------------------------------------------------------------------------
 (* Harness sanity (never a property verdict): the trace is well formed.    *)
 H_WellFormed ==
@@ -55,7 +62,7 @@ H_WellFormed ==
   /\ \A r \in R : S(Obs[r].ents) \subseteq DOMAIN UU
   /\ \A r \in R : \A x \in S(Obs[r].ents) : UU[x].seen
   /\ ev.chain => (l > 1 /\ Rec(l - 1).sid = ev.sid /\ Rec(l - 1).post = ev.pre)
-  /\ ~ev.panic \/ ev.op \in {"JB", "J", "I"}
+  /\ ~ev.panic \/ ev.op \in {"JB", "J", "I", "A"}
   /\ ~ev.herr
 
 -----------------------------------------------------------------------------
@@ -148,23 +155,45 @@ C04_Append ==
        /\ S(e.refs) \subseteq PastOf(UU, id)                           \* C04_RefsInPast
        /\ S(e.refs) \cap S(e.next) = {}                                \* C04_RefsDisjointNext
        /\ NoDup(e.refs)
-       /\ \A k \in 0..10 : (ev.n < 2^(k + 1)) => Len(e.refs) <= k + 2  \* C04_RefsLogBound
-       /\ ev.retok]_vars                                               \* C06_AppendedVerifies
+       /\ \A k \in 0..10 : (ev.n < 2^(k + 1)) => Len(e.refs) <= k + 2]_vars  \* C04_RefsLogBound
 
 \* C06: denied append leaves entries and heads unchanged
 C06_AppendDenied ==
   [][IsStep /\ ev.op = "A" /\ ev.err # "" =>
        /\ post[ev.r].ents = pre[ev.r].ents /\ post[ev.r].heads = pre[ev.r].heads
        /\ post[ev.r].values = pre[ev.r].values /\ ev.ret = 0]_vars
+C06_DeniedWriterCannotAppend ==
+  [][IsStep /\ ev.op = "A" /\ pre[ev.r].ident \in DeniedBy(ev.r) => ev.err # ""]_vars
+C06_AppendedVerifies ==
+  [][IsStep /\ ev.op = "A" /\ ev.err = "" => ev.retok]_vars
 \* C06: a failed join leaves the destination observably unchanged
 C06_AllOrNothing ==
   [][IsStep /\ ev.op \in {"J", "JB"} /\ ev.err # "" /\ ~ev.panic => post[ev.r] = pre[ev.r]]_vars
-\* C06: entries admitted by a join carry the log's id and a writer the replica's controller permits
-C06_OnlyPermittedAdded ==
+\* C06: what a join admits carries the log's id, is permitted, and is the genuine object
+OrigOf(o, x) == LET i == CHOOSE k \in DOMAIN o.ents : o.ents[k] = x IN o.origdigs[i]
+C06_OnlyValidAdded ==
   [][IsStep /\ ev.op \in {"J", "JB"} =>
        \A x \in S(post[ev.r].ents) \ S(pre[ev.r].ents) :
           /\ UU[x].lid = pre[ev.r].lid
-          /\ UU[x].w \notin S(Hdr.cfg.Denied[ev.r])]_vars
+          /\ UU[x].w \notin DeniedBy(ev.r)
+          /\ x \notin BadIdsOf(pre[ev.s])
+          /\ DigOf(post[ev.r], x)[1] = OrigOf(post[ev.r], x)]_vars
+\* replicas the script never tampered with hold genuine objects only, and their heads are entries
+C06_HonestHoldGenuine ==
+  \A r \in R : Obs[r].bad = <<>> =>
+     /\ \A i \in DOMAIN Obs[r].ents : Obs[r].digs[i] = Obs[r].origdigs[i]
+     /\ S(Obs[r].heads) \subseteq S(Obs[r].ents)
+     /\ \A x \in S(Obs[r].ents) : UU[x].lid = Obs[r].lid
+\* for causally closed logs the candidates of a join are the source entries the destination lacks
+JoinScope == IsStep /\ ev.op \in {"J", "JB"} /\ ev.r # ev.s /\ pre[ev.r].lid = pre[ev.s].lid
+               /\ pre[ev.r].pure /\ pre[ev.s].pure
+Missing == S(pre[ev.s].ents) \ S(pre[ev.r].ents)
+C06_BadCandidateRejected ==
+  [][JoinScope /\ (\E x \in Missing : x \in InvalidOf(pre[ev.s]) \/ UU[x].w \in DeniedBy(ev.r))
+       => ev.err # ""]_vars
+C06_ValidJoinSucceeds ==
+  [][JoinScope /\ (\A x \in Missing : x \notin BadIdsOf(pre[ev.s]) /\ UU[x].w \notin DeniedBy(ev.r))
+       => ev.err = "" /\ ~ev.panic]_vars
 
 \* C16: bounded join = last n of the unbounded result, never panics
 UnboundedOf(r, s) == JoinResult(UU, Fn, Abs(pre[r]), [ents |-> S(pre[s].ents), heads |-> pre[s].rawheads], pre[r].lid, -1)
@@ -231,7 +260,7 @@ M_Join ==
        LET r == ev.r  s == ev.s IN
        IF r = s \/ pre[r].lid # pre[s].lid \/ (ev.err # "" /\ ~ev.panic)
        THEN post[r] = pre[r]
-       ELSE LET j == JoinResult(UU, Fn, Abs(pre[r]), [ents |-> S(pre[s].ents), heads |-> pre[s].rawheads],
+       ELSE LET j == JoinResult(UFor(pre[s]), Fn, Abs(pre[r]), [ents |-> S(pre[s].ents), heads |-> pre[s].rawheads],
                                 pre[r].lid, ev.n)
             IN /\ ev.panic = j.panic
                /\ ~j.panic =>
@@ -240,6 +269,12 @@ M_Join ==
                     /\ post[r].rawheads = j.heads
                     /\ S(post[r].nidx) = j.nidx
                     /\ post[r].clk = j.clk]_vars
+
+M_Tamper ==
+  [][IsStep /\ ev.op = "T" /\ ~ev.div =>
+       /\ post[ev.r].ents = pre[ev.r].ents /\ post[ev.r].rawheads = pre[ev.r].rawheads
+       /\ post[ev.r].clk = pre[ev.r].clk /\ post[ev.r].nidx = pre[ev.r].nidx
+       /\ BadIdsOf(post[ev.r]) = BadIdsOf(pre[ev.r]) \cup {ev.n}]_vars
 
 M_SetIdentity ==
   [][IsStep /\ ev.op = "SI" =>
